@@ -24,6 +24,18 @@ class Raised(Unsupported):
     """The interpreted function executed a raise statement."""
 
 
+def _is_generator(node):
+    todo = list(node.body)
+    while todo:
+        n = todo.pop()
+        if isinstance(n, (ast.Yield, ast.YieldFrom)):
+            return True
+        if isinstance(n, (ast.FunctionDef, ast.AsyncFunctionDef, ast.Lambda, ast.ClassDef)):
+            continue
+        todo.extend(ast.iter_child_nodes(n))
+    return False
+
+
 class _Return(Exception):
     def __init__(self, v):
         self.v = v
@@ -123,11 +135,14 @@ class Interp:
             env[f.kwarg] = dict(kwargs)
         if isinstance(f.node, ast.Lambda):
             return self.expr(f.node.body, env, f.mod)
+        gen = _is_generator(f.node)
+        if gen:
+            env['#yield'] = []      # generators are run eagerly: sound for the side-effect-free generators of this code base
         try:
             self.block(f.node.body, env, f.mod)
         except _Return as r:
-            return r.v
-        return None
+            return iter(env['#yield']) if gen else r.v
+        return iter(env['#yield']) if gen else None
 
     # --------------------------------------------------------- statements
     def block(self, stmts, env, mod):
@@ -245,6 +260,14 @@ class Interp:
             raise Unsupported('evaluation budget exceeded')
         if isinstance(e, ast.Constant):
             return e.value
+        if isinstance(e, (ast.Yield, ast.YieldFrom)):
+            if '#yield' not in env:
+                raise Unsupported('yield outside an evaluated generator')
+            if isinstance(e, ast.Yield):
+                env['#yield'].append(self.expr(e.value, env, mod) if e.value is not None else None)
+            else:
+                env['#yield'].extend(self.expr(e.value, env, mod))
+            return None
         if isinstance(e, ast.Name):
             if e.id in env:
                 return env[e.id]
@@ -501,11 +524,14 @@ class Interp:
                     if j < 0:
                         raise Unsupported('missing argument %s of local function %s' % (nm, node.name))
                     env[nm] = self.expr(defaults[j], cenv, mod)
+            gen = _is_generator(node)
+            if gen:
+                env['#yield'] = []
             try:
                 self.block(node.body, env, mod)
             except _Return as r:
-                return r.v
-            return None
+                return iter(env['#yield']) if gen else r.v
+            return iter(env['#yield']) if gen else None
         if isinstance(f, tuple) and f and f[0] == '#lambda':
             lam, env, mod = f[1], dict(f[2]), f[3]
             for p, a in zip([x.arg for x in lam.args.args], args):
